@@ -142,7 +142,64 @@ def w_grid(case):
     return {'transitions': ntr, 'outcome': tol.rnd([got, pw]), 'violations': viol}
 
 
-WORKERS = {'grids': w_grid, 'selection': w_grid}
+def w_sbml(case):
+    """SBML driver (library models on the solver stand-in): the reference prediction
+    for a measurement is the model's own simulation at that single time (the
+    simulation API is decided by C09), so what is checked is the routing of
+    measurements to outputs / times / error models."""
+    import chi.library
+    viol = []
+    lib = chi.library.ModelLibrary()
+    if case['model'] == 'erlotinib':
+        m = lib.erlotinib_tumour_growth_inhibition_model()
+        m.set_administration('central', direct=case['direct'])
+        m.set_dosing_regimen(2.0, start=0.3, duration=0.4, period=1.0, num=2)
+        m.set_outputs(case['outputs'])
+    else:
+        m = lib.one_compartment_pk_model()
+        m.set_administration('central', direct=case['direct'])
+        m.set_dosing_regimen(1.5, start=0.2, duration=0.3)
+        m.set_outputs(case['outputs'])
+    ems = [chi_error_model(c) for c in case['ems']]
+    ll = chi.LogLikelihood(m, ems, case['obs'], case['times'])
+    n_mech = m.n_parameters()
+    params = np.array(case['params'], dtype=float)
+    exp = 0.0
+    pw = []
+    start = n_mech
+    fresh = m.copy()
+    for j, code in enumerate(case['ems']):
+        npar = rerr.N_PARAMS[code]
+        sig = params[start:start + npar]
+        start += npar
+        order = np.argsort(case['times'][j], kind='stable')
+        for k in order:
+            t, y = case['times'][j][k], case['obs'][j][k]
+            ybar = fresh.simulate(params[:n_mech], [t])[j, 0]
+            v = rerr.pointwise(code, sig, np.array([ybar]), np.array([y]))[0]
+            pw.append(v)
+            exp += v
+    got = ll(params.copy())
+    if not tol.close(got, exp, 1e-7, 1e-9):
+        viol.append({'sub': 'sbml_total', 'message': 'SBML-driven log-likelihood is '
+                     'not the sum over measurements of the error density at the '
+                     'prediction for the same output and time', 'expected': exp,
+                     'observed': got, 'behaviour': 'sbml_total'})
+    gp = np.asarray(ll.compute_pointwise_ll(params.copy()), dtype=float)
+    if gp.shape != (len(pw),) or not tol.allclose(gp, np.array(pw), 1e-7, 1e-9):
+        viol.append({'sub': 'sbml_pointwise', 'message': 'SBML-driven pointwise '
+                     'log-likelihoods wrong', 'expected': pw, 'observed': gp,
+                     'behaviour': 'sbml_pointwise'})
+    s1 = ll.evaluateS1(params.copy())
+    if not tol.close(s1[0], exp, 1e-7, 1e-9):
+        viol.append({'sub': 'sbml_s1', 'message': 'SBML-driven evaluateS1 score '
+                     'differs', 'expected': exp, 'observed': s1[0],
+                     'behaviour': 'sbml_s1'})
+    return {'transitions': 4 + len(pw), 'outcome': tol.rnd([got, gp], 8),
+            'violations': viol}
+
+
+WORKERS = {'grids': w_grid, 'selection': w_grid, 'sbml': w_sbml}
 
 
 def multisets(lattice, max_size):
@@ -222,8 +279,34 @@ def build(tier, seed):
             for ts in itertools.product(ms_s[::2] if tier == 'quick' else ms_s,
                                         repeat=len(sel)):
                 selection.append(make_case(ems, list(ts), 3, sel, seed, tag='s'))
+    sbml = []
+    ms_s2 = multisets(lattice, 2)
+    outs2 = [['global.tumour_volume', 'central.drug_concentration'],
+             ['central.drug_concentration', 'global.tumour_volume'],
+             ['central.drug_amount', 'global.tumour_volume']]
+    for oi, outs in enumerate(outs2):
+        for direct in (True, False):
+            for ei, ems in enumerate(itertools.product(['G', 'CM', 'LN'], repeat=2)):
+                grids_s = ms_s2 if tier == 'thorough' else ms_s2[(oi + ei) % 3::3]
+                for gi, t0 in enumerate(grids_s):
+                    t1 = ms_s2[(gi * 2 + ei + 1) % len(ms_s2)]
+                    n = 7 if direct else 9
+                    prm = vals.reals('c01.sb', n, 0.4, 1.6, seed)
+                    for code in ems:
+                        prm += [0.5, 0.15][:rerr.N_PARAMS[code]]
+                    sbml.append({
+                        'model': 'erlotinib', 'direct': direct, 'outputs': outs,
+                        'ems': list(ems), 'times': [list(t0), list(t1)],
+                        'obs': [vals.reals('c01.so0%d' % len(t0), len(t0), 0.5, 4,
+                                           seed),
+                                vals.reals('c01.so1%d' % len(t1), len(t1), 0.5, 4,
+                                           seed)],
+                        'params': prm})
     return {
         'parts': [
+            Part('sbml', sbml, w_sbml,
+                 '2-output library model with dosing on the solver stand-in: '
+                 'output orders x routes x error models x grid pairs'),
             Part('grids', grids, w_grid,
                  'outputs x error-model assignment x all time multisets per output'),
             Part('selection', selection, w_grid,
